@@ -41,11 +41,11 @@ CHECKS = {
                 note="The planner (ref/layout_rules.h) is written from the property text; frames without messages are C07's business.",
                 technique="bounded exhaustive enumeration of encoder executions compared with an executable reference model of the layout rules"),
     "C09": dict(level="model_checking", design="4/C09",
-                text="All histories up to depth 5 (quick) / 7 (thorough) over a 13-operation alphabet explored as a tree of copied real Encoder objects, every prefix judged against a counter/identity model; plus dedicated histories that wrap the 16-bit counter inside and across calls.",
-                note="Alphabet: 2 device ids, 2 stream ids, restart, 8 (batch,context,version) triples chosen to differ in every piece of carried encoder state, two of them from another one in the version only.",
+                text="All histories up to depth 5 (quick) / 7 (thorough) over a 14-operation alphabet explored as a tree of copied real Encoder objects, every prefix judged against a counter/identity model; plus dedicated histories that wrap the 16-bit counter inside and across calls.",
+                note="Alphabet: 2 device ids, 2 stream ids, restart, 9 (batch,context,version) triples chosen to differ in every piece of carried encoder state, two of them from another one in the version only.",
                 technique="explicit-state exploration of all operation sequences up to a depth on the real object, lock-step with a reference model"),
     "C10": dict(level="model_checking", design="4/C10",
-                text="For every history up to depth 4 (quick) / 6 (thorough) and every final (batch,context,version) of a 13-element set the frames of the used real Encoder are compared byte for byte (modulo a constant counter offset) with those of a fresh Encoder with the same ids; runs under ASan/UBSan in a fork sandbox so crashes caused by leftover state are outcomes.",
+                text="For every history up to depth 4 (quick) / 6 (thorough) and every final (batch,context,version) of a 14-element set the frames of the used real Encoder are compared byte for byte (modulo a constant counter offset) with those of a fresh Encoder with the same ids; runs under ASan/UBSan in a fork sandbox so crashes caused by leftover state are outcomes.",
                 note="Purely differential: no model involved.",
                 technique="explicit-state exploration of all operation sequences up to a depth, differential oracle (used vs fresh object)"),
     "C05": dict(level="model_checking", design="4/C05",
